@@ -200,7 +200,8 @@ def call_native(eng, obj, args, kwargs, st):
         return h(eng, args, kwargs, st)
     # repo functions
     mod = getattr(obj, "__module__", None) or ""
-    if isinstance(obj, types.FunctionType) and mod.startswith("doctrans"):
+    if isinstance(obj, types.FunctionType) and mod.startswith("doctrans") and not (
+            getattr(eng, "concrete_fallback", False) and getattr(eng, "to_py", None) and obj.__name__ in READERS):
         if getattr(eng, "concrete_fallback", False) and all(_concrete(a) for a in args) and all(_concrete(v) for v in kwargs.values()):
             snap = st.copy()
             try:
@@ -234,7 +235,21 @@ def call_native(eng, obj, args, kwargs, st):
             return ok(eng.lift(obj(*args, **kwargs)), st)
         except Exception as e:  # noqa
             return err(type(e).__name__, str(e), st)
+    if getattr(eng, "concrete_fallback", False) and getattr(eng, "to_py", None) and getattr(obj, "__name__", "") in READERS:
+        # concrete runs only: read-only library / renderer calls on modelled nodes are made on the converted real objects
+        try:
+            pargs = [eng.to_py(a, st) for a in args]
+            pkw = {k: eng.to_py(v, st) for k, v in kwargs.items()}
+        except Unsupported:
+            raise
+        try:
+            return ok(eng.lift_py(obj(*pargs, **pkw), st), st)
+        except Exception as e:  # noqa
+            return err(type(e).__name__, str(e), st)
     raise Unsupported("call of %r" % (getattr(obj, "__qualname__", obj),))
+
+
+READERS = {"get_docstring", "unparse", "dump", "to_code"}
 
 
 def _key(obj):
@@ -909,7 +924,10 @@ def _deep_clone(v, st, memo):
     if isinstance(v, tuple):
         return tuple(_deep_clone(x, st, memo) for x in v)
     if isinstance(v, Opq):
-        raise Unsupported("deepcopy of an opaque object")
+        # a copy of an opaque object is another opaque object of the same class: nothing is known about it except through the copy relation
+        if v.t.sexpr() not in memo:
+            memo[v.t.sexpr()] = Opq(z3.Function("deepcopy_of", Obj, Obj)(v.t), v.cls)
+        return memo[v.t.sexpr()]
     if not isinstance(v, Ref):
         return v
     if v.oid in memo:
